@@ -12,7 +12,7 @@ Definition mkd := Build_domain.
 Record obs := { ob_reg : list (name * domain) ; ob_bal : list Z ; ob_pool : Z }.
 
 Inductive cstep :=
-| STx (o : op) (h v : Z) (fee : option Z) (ok : bool) (ob : obs)
+| STx (o : op) (h v : Z) (fee : option Z) (sok nb : bool) (ok : bool) (ob : obs)
 | SEnd (ob : obs).
 
 Record case := { c_opts : opts ; c_init : obs ; c_steps : list cstep }.
@@ -33,17 +33,55 @@ Definition state_matches (s : state) (ob : obs) : bool :=
   && forallb (fun '(i, z) => getbal (bal s) i =? z) (imap (fun i z => (N.of_nat i, z)) (ob_bal ob))
   && (pool s =? ob_pool ob).
 
-Definition mk_tx (o : opts) (op0 : op) (h v : Z) (fee : option Z) : tx :=
-  {| t_op := op0; t_env := {| e_h := h; e_v := v; e_opts := o |}; t_payer := signer op0; t_fee := fee |}.
+Definition mk_tx (o : opts) (op0 : op) (h v : Z) (fee : option Z) (sok nb : bool) : tx :=
+  {| t_op := op0; t_env := {| e_h := h; e_v := v; e_opts := o |}; t_payer := signer op0; t_fee := fee;
+     t_static_ok := sok; t_nil_benef := nb |}.
+
+(* ---- boolean trigger predicates over a model step (guards of the _partial theorems) ---- *)
+(* C20.expiry_blocks_ge_2p63 *)
+Definition trig_create_overflow (e : env) (price : Z) : bool :=
+  2^63 <=? e_v e + (price - o_base (e_opts e)) / o_perblock (e_opts e).
+Definition trig_renew_overflow (e : env) (d : domain) (price : Z) : bool :=
+  2^63 <=? d_expiry d + price / o_perblock (e_opts e).
+Definition trig_purchase_overflow (e : env) (d : domain) (offer : Z) : bool :=
+  2^63 <=? Z.max (d_expiry d) (e_v e)
+           + (if sale_branch e d then offer - default 0 (d_price d) else offer - o_base (e_opts e))
+             / o_perblock (e_opts e).
+(* C20.purchase_misses_uncommitted_sub *)
+Definition trig_purchase_uncommitted (s : state) (o : op) : bool :=
+  match o with
+  | Purchase _ _ p _ =>
+      existsb (fun n => is_sub_of p n && negb (bool_decide (n ∈ snap s))) (map fst (map_to_list (reg s)))
+  | _ => false
+  end.
+Definition trig_step_overflow (s : state) (t : tx) : bool :=
+  match t_op t with
+  | Create _ _ n _ _ price => negb (is_sub n) && trig_create_overflow (t_env t) price
+  | Renew _ n price =>
+      match reg s !! n with Some d => trig_renew_overflow (t_env t) d price | None => false end
+  | Purchase _ _ n offer =>
+      match reg s !! n with Some d => trig_purchase_overflow (t_env t) d offer | None => false end
+  | _ => false
+  end.
 
 (* ---- model vs implementation ---- *)
 Fixpoint mm_steps (o : opts) (s : state) (i : nat) (steps : list cstep) : option nat :=
   match steps with
   | [] => None
-  | STx op0 h v fee ok ob :: rest =>
-      let t := mk_tx o op0 h v fee in
+  | STx op0 h v fee sok nb ok ob :: rest =>
+      let t := mk_tx o op0 h v fee sok nb in
       let '(s', ok') := deliver s t in
-      if Bool.eqb ok ok' && state_matches s' ob then mm_steps o s' (S i) rest else Some i
+      if Bool.eqb ok ok' && state_matches s' ob then mm_steps o s' (S i) rest else
+      (* inside a known-trigger region the comparison is one-sided: the implementation may
+         behave like the (defective) model — above — or satisfy the property:
+         - block count not representable: the transaction is refused without a trace;
+         - purchase meeting an uncommitted sub-name: that sub-name is deleted as well *)
+      if trig_step_overflow s t && negb ok && state_matches s ob then mm_steps o s (S i) rest else
+      let sc := {| reg := reg s; snap := dom (reg s); bal := bal s; pool := pool s |} in
+      let '(s2, ok2) := deliver sc t in
+      let s2' := {| reg := reg s2; snap := snap s; bal := bal s2; pool := pool s2 |} in
+      if trig_purchase_uncommitted s op0 && Bool.eqb ok ok2 && state_matches s2' ob
+      then mm_steps o s2' (S i) rest else Some i
   | SEnd ob :: rest =>
       let s' := end_block s in
       (* the pool is re-read at block end (block-level bookkeeping is outside this model) *)
@@ -75,14 +113,16 @@ Definition deltas_ok (b a : obs) (buyer seller payer : addr) (offer q fee : Z) :
 
 (* a purchase of p that paid: the asking price to the previous owner (on-sale branch) or at
    least the base price to the pool (expired name) *)
-Definition paid_purchase (o : opts) (b a : obs) (p : name) (buyer : addr) (offer v fee : Z) : bool :=
+Definition paid_purchase (o : opts) (listed : list (name * addr)) (b a : obs) (p : name) (buyer : addr)
+    (offer v fee : Z) : bool :=
   match obs_reg b !! p with
   | None => false
   | Some d =>
     let e := {| e_h := v + 1; e_v := v; e_opts := o |} in
     if sale_branch e d then
       match d_price d with
-      | Some q => (q <=? offer) && deltas_ok b a buyer (d_owner d) buyer offer q fee
+      | Some q => (q <=? offer) && bool_decide ((p, d_owner d) ∈ listed)
+                  && deltas_ok b a buyer (d_owner d) buyer offer q fee
                   && (ob_pool a - ob_pool b =? offer - q + fee)
       | None => false
       end
@@ -94,7 +134,8 @@ Definition owner_is (r : gmap name domain) (n : name) (a : addr) : bool :=
   match r !! n with Some d => bool_decide (d_owner d = a) | None => false end.
 
 (* is the change of record n between b and a justified by transaction op0? *)
-Definition justified (o : opts) (b a : obs) (op0 : op) (v fee : Z) (n : name) : bool :=
+Definition justified (o : opts) (listed : list (name * addr)) (b a : obs) (op0 : op) (v fee : Z)
+    (n : name) : bool :=
   let rb := obs_reg b in let ra := obs_reg a in
   owner_is rb n (signer op0)
   || existsb (fun '(p, d) => is_sub_of p n && bool_decide (d_owner d = signer op0)) (ob_reg b)
@@ -103,7 +144,7 @@ Definition justified (o : opts) (b a : obs) (op0 : op) (v fee : Z) (n : name) : 
          bool_decide (n' = n) && bool_decide (rb !! n = None) && negb (is_sub n) && owner_is ra n ow
      | Purchase buyer _ p offer =>
          (bool_decide (p = n) || is_sub_of p n && bool_decide (ra !! n = None))
-         && paid_purchase o b a p buyer offer v fee
+         && paid_purchase o listed b a p buyer offer v fee
      | _ => false
      end.
 
@@ -160,23 +201,52 @@ Definition ideal_expiry (o : opts) (b : obs) (op0 : op) (v : Z) : option (name *
 Definition trig_expiry_overflow (o : opts) (b : obs) (op0 : op) (v : Z) : bool :=
   match ideal_expiry o b op0 v with Some (_, x) => 2^63 <=? x | None => false end.
 
-(* classes: 0 none; 1 unauthorised change; 3 expiry not the blocks bought; 4 sub-name
+(* sale status: every on-sale record of the new state was on sale before for the same owner at the
+   same price, or the transaction is that owner's successful Sell at that price
+   (mirrors proofs/OnsProofs.v listing_ok) *)
+Definition listing_okb (b a : obs) (op0 : op) (ok : bool) : bool :=
+  forallb (fun '(n, d') =>
+    negb (d_onsale d') ||
+    match obs_reg b !! n with
+    | Some d => d_onsale d && bool_decide (d_owner d = d_owner d') && bool_decide (d_price d = d_price d')
+    | None => false
+    end ||
+    match op0 with
+    | Sell ow n' price false =>
+        ok && bool_decide (n' = n) && bool_decide (ow = d_owner d') && owner_is (obs_reg b) n ow
+        && bool_decide (d_price d' = Some price)
+    | _ => false
+    end) (ob_reg a).
+
+(* who signed the current listing of each name (from the successful transactions seen so far) *)
+Definition listed_after (listed : list (name * addr)) (op0 : op) (ok : bool) : list (name * addr) :=
+  if negb ok then listed else
+  match op0 with
+  | Sell ow n _ cancel =>
+      let l := filter (fun x => x.1 <> n) listed in if cancel then l else (n, ow) :: l
+  | Purchase _ _ n _ => filter (fun x => x.1 <> n) listed
+  | _ => listed
+  end.
+
+(* classes: 0 none; 7 a name is on sale without its owner's sell transaction; 1 unauthorised change; 3 expiry not the blocks bought; 4 sub-name
    invariant broken; 5 failed transaction left a trace; 6 two records for one name;
    11 / 12 = class 4 / 3 inside the known trigger regions *)
-Definition monitor_step (o : opts) (committed : list name) (b : obs) (st : cstep) : nat :=
+Definition monitor_step (o : opts) (committed : list name) (listed : list (name * addr)) (b : obs)
+    (st : cstep) : nat :=
   match st with
   | SEnd a =>
       if negb (names_nodup a) then 6%nat
       else if negb (bool_decide (obs_reg b = obs_reg a)) || negb (bool_decide (ob_bal b = ob_bal a)) then 5%nat
       else 0%nat
-  | STx op0 h v fee ok a =>
+  | STx op0 h v fee sok nb ok a =>
       if negb (names_nodup a) then 6%nat else
       if negb ok then
         (if bool_decide (obs_reg b = obs_reg a) && bool_decide (ob_bal b = ob_bal a)
             && (ob_pool b =? ob_pool a) then 0%nat else 5%nat)
       else
         let f := default 0 fee in
-        if negb (forallb (justified o b a op0 v f) (changed_names b a)) then 1%nat else
+        if negb (forallb (justified o listed b a op0 v f) (changed_names b a)) then 1%nat else
+        if negb (listing_okb b a op0 ok) then 7%nat else
         if match ideal_expiry o b op0 v with
            | Some (n, x) => match obs_reg a !! n with Some d => negb (d_expiry d =? x) | None => true end
            | None => false
@@ -189,24 +259,25 @@ Definition monitor_step (o : opts) (committed : list name) (b : obs) (st : cstep
         else 0%nat
   end.
 
-Definition step_obs (st : cstep) : obs := match st with STx _ _ _ _ _ a => a | SEnd a => a end.
+Definition step_obs (st : cstep) : obs := match st with STx _ _ _ _ _ _ _ a => a | SEnd a => a end.
 
-Fixpoint mon_steps (o : opts) (committed : list name) (b : obs) (i : nat) (steps : list cstep)
-  : list (nat * nat) :=
+Fixpoint mon_steps (o : opts) (committed : list name) (listed : list (name * addr)) (b : obs) (i : nat)
+    (steps : list cstep) : list (nat * nat) :=
   match steps with
   | [] => []
   | st :: rest =>
       let a := step_obs st in
       let committed' := match st with SEnd _ => obs_names a | _ => committed end in
-      let cl := monitor_step o committed b st in
-      (if (cl =? 0)%nat then [] else [(i, cl)]) ++ mon_steps o committed' a (S i) rest
+      let cl := monitor_step o committed listed b st in
+      let listed' := match st with STx op0 _ _ _ _ _ ok _ => listed_after listed op0 ok | SEnd _ => listed end in
+      (if (cl =? 0)%nat then [] else [(i, cl)]) ++ mon_steps o committed' listed' a (S i) rest
   end.
 
 Fixpoint monitor_violations (i : nat) (cs : list case) : list (nat * nat * nat) :=
   match cs with
   | [] => []
   | c :: rest =>
-      map (fun '(j, cl) => (i, j, cl)) (mon_steps (c_opts c) (obs_names (c_init c)) (c_init c) 0 (c_steps c))
+      map (fun '(j, cl) => (i, j, cl)) (mon_steps (c_opts c) (obs_names (c_init c)) [] (c_init c) 0 (c_steps c))
       ++ monitor_violations (S i) rest
   end.
 
@@ -219,7 +290,7 @@ Fixpoint stat_steps (b : obs) (steps : list cstep) : Z * Z * Z :=
       let a := step_obs st in
       let '(x, y, z) := stat_steps a rest in
       match st with
-      | STx _ _ _ _ ok _ =>
+      | STx _ _ _ _ _ _ ok _ =>
           (x + 1, (if ok then y + 1 else y), (if (0 <? length (changed_names b a))%nat then z + 1 else z))
       | SEnd _ => (x, y, z)
       end
@@ -233,21 +304,3 @@ Definition flat2 (l : list (nat * nat)) : list Z :=
   flat_map (fun '(a, b) => [Z.of_nat a; Z.of_nat b]) l.
 Definition flat3 (l : list (nat * nat * nat)) : list Z :=
   flat_map (fun '(a, b, c) => [Z.of_nat a; Z.of_nat b; Z.of_nat c]) l.
-
-(* ---- boolean trigger predicates over a model step (guards of the _partial theorems) ---- *)
-(* C20.expiry_blocks_ge_2p63 *)
-Definition trig_create_overflow (e : env) (price : Z) : bool :=
-  2^63 <=? e_v e + (price - o_base (e_opts e)) / o_perblock (e_opts e).
-Definition trig_renew_overflow (e : env) (d : domain) (price : Z) : bool :=
-  2^63 <=? d_expiry d + price / o_perblock (e_opts e).
-Definition trig_purchase_overflow (e : env) (d : domain) (offer : Z) : bool :=
-  2^63 <=? Z.max (d_expiry d) (e_v e)
-           + (if sale_branch e d then offer - default 0 (d_price d) else offer - o_base (e_opts e))
-             / o_perblock (e_opts e).
-(* C20.purchase_misses_uncommitted_sub *)
-Definition trig_purchase_uncommitted (s : state) (o : op) : bool :=
-  match o with
-  | Purchase _ _ p _ =>
-      existsb (fun n => is_sub_of p n && negb (bool_decide (n ∈ snap s))) (map fst (map_to_list (reg s)))
-  | _ => false
-  end.
